@@ -254,15 +254,7 @@ func runFieldCov(c *Ctx, r *Reporter, spec fieldCovSpec) {
 			return
 		}
 		info := pkg.TypesInfo
-		var ts *ast.TypeSwitchStmt
-		for _, cand := range typeSwitches(info, fn.Decl.Body, func(subj ast.Expr) bool {
-			t := info.TypeOf(subj)
-			return t != nil && types.Identical(t.Underlying(), iface)
-		}) {
-			if ts == nil || len(cand.Body.List) > len(ts.Body.List) {
-				ts = cand
-			}
-		}
+		_, ts := nodeDispatcher(pkg, fn, iface)
 		if ts == nil {
 			r.Undecided("%s has no type switch over parser.Node", spec.dispatcher)
 			return
